@@ -310,6 +310,21 @@ class VerifMixedKeysContextProcessor(ContextProcessor):
         self._notify_context_update("a", "A")
 
 
+class VerifRunMarker:
+    """An object a caller puts into a run's context; live instances are counted after the runs."""
+
+
+class VerifFailingContextProcessor(ContextProcessor):
+    """A context processor whose logic raises after it was handed the run's context."""
+
+    @classmethod
+    def context_keys(cls):
+        return ["never_written"]
+
+    def _process_logic(self, marker=None):
+        raise ValueError("verif: this context processor always fails")
+
+
 class VerifSortInPlaceContextProcessor(ContextProcessor):
     """User code that sorts the list it finds under `t_values` IN PLACE (descending) and writes nothing."""
 
